@@ -24,6 +24,8 @@ from taskiq.exceptions import NoResultError
 from ._wcommon import (ASSUMPTIONS, COMPONENTS_REAL, COMPONENTS_STUB, Hist, Violation, default_nontrivial,  # noqa: F401
                        simplifications)
 
+from ._wcommon import abstract_states  # noqa: F401,E402
+
 ID = "C08"
 RUNS = {"quick": 6000, "thorough": 200000}
 BUDGET_S = {"quick": 60, "thorough": 900}
